@@ -60,6 +60,8 @@ def run(tier):
             cc.tlc.cleanup("%s_%s" % (PID, name))
         cc.sim_phase(chk, PID, name, c, MINE, n * (6 if th else 1), 8, ctx, nontrivial_fn=has_rewrite)
     cc.script_phase(chk, PID, "findings", cc.load_corpus(PID), MINE)
+    if th:
+        cc.repo_tests_phase(chk, PID, MINE, ["tests/sdk/circuit_test.py", "tests/qubit"])
     cc.trace_phase(chk, PID, "rewrites_ring", 2400 if th else 400, "rewrites", MINE, numeric=True)
     cc.trace_phase(chk, PID, "rewrites_float", 2400 if th else 320, "rewrites", MINE, numeric=False)
     chk.assumptions = ["TLC 1.8 + CommunityModules", "rewrites are specified by contract (transformation, heralds, input size preserved + structure "
